@@ -2,6 +2,7 @@ import Smtb.Proofs.TraceSem
 import Smtb.Circuit.Merkle
 import Smtb.Circuit.Bits
 import Smtb.Circuit.Main
+import Smtb.Circuit.TraceHarness
 import Smtb.Proofs.Bits
 import Mathlib.Logic.Function.Basic
 import Mathlib.Data.List.GetD
@@ -16,7 +17,7 @@ holds of the value of the returned operands.  One lemma per API operation, `pure
 then the gadgets by structural recursion on the program text.
 -/
 namespace Smtb.TraceSound
-open Smtb Smtb.TraceSem CircuitApi
+open Smtb Smtb.TraceSem Smtb.TraceHarness CircuitApi
 
 variable {p : ℕ}
 
@@ -982,22 +983,14 @@ theorem Sim_ret {β α : Type} [Ev p β α] {x : SatM p α} {y : TraceM β} (s :
 
 end top
 
-/-! ## the harness programs (`Driver/TraceCmd.lean`) and the closed statements
+/-! ## the closed statements, for the harness programs of `Smtb/Circuit/TraceHarness.lean`
 
-Each `trace…` program below is the program `driver trace …` runs (inputs allocated first with
+Each `trace…` program there is the program `driver trace …` runs (inputs allocated first with
 `TraceM.fresh` / `TraceM.freshN`, then the gadget, then the `ret …` line), except that it also
 returns the gadget's result so that the statement can talk about it. -/
 
 /-- closes the `i < n` / `off + k ≤ n` side goals about concrete wire ids -/
 macro "wire_bound" : tactic => `(tactic| first | (simp; done) | (simp; omega))
-
-def inputs (n : ℕ) : TraceM (List TV) := TraceM.freshN n
-def input1 : TraceM TV := TraceM.fresh
-def ret (vs : List TV) : TraceM Unit := TraceM.emit ("ret" ++ TraceM.tvList vs)
-
-/-- `Driver.chunks` -/
-def chunks {α : Type} (l : List α) (size count : ℕ) : List (List α) :=
-  (List.range count).map fun i => (l.drop (i * size)).take size
 
 theorem chunks_map {α β : Type} (f : α → β) (l : List α) (size count : ℕ) :
     chunks (l.map f) size count = (chunks l size count).map (List.map f) := by
@@ -1038,42 +1031,6 @@ open Smtb.Circuit
 variable {H : ZMod p → ZMod p → ZMod p} (K : List ℕ → List (ZMod p) → List (ZMod p))
 variable {names : List String} (hmem : "Poseidon2" ∈ names)
 variable {hash2 : ZMod p → ZMod p → SatM p (ZMod p)} (hH : ∀ a b k, hash2 a b k ↔ k (H a b))
-
-def traceProofRound : TraceM TV := do
-  let d ← input1; let h ← input1; let s ← input1
-  let r ← proofRound Poseidon.poseidon2 d h s; ret [r]; pure r
-
-def traceVerifyProof (d : ℕ) : TraceM TV := do
-  let prf ← inputs (d + 1); let path ← inputs d
-  let r ← verifyProof Poseidon.poseidon2 (prf.headD (.c 0)) prf.tail path; ret [r]; pure r
-
-def traceInsertionRound (d : ℕ) : TraceM TV := do
-  let idx ← input1; let item ← input1; let prev ← input1; let prf ← inputs d
-  let r ← insertionRound Poseidon.poseidon2 d idx item prev prf; ret [r]; pure r
-
-def traceInsertionProof (d b : ℕ) : TraceM TV := do
-  let start ← input1; let pre ← input1; let ids ← inputs b; let prfs ← inputs (b * d)
-  let r ← insertionProof Poseidon.poseidon2 d start pre ids (chunks prfs d b); ret [r]; pure r
-
-def traceDeletionRound (d : ℕ) : TraceM TV := do
-  let root ← input1; let idx ← input1; let item ← input1; let prf ← inputs d
-  let r ← deletionRound Poseidon.poseidon2 d root idx item prf; ret [r]; pure r
-
-def traceDeletionProof (d b : ℕ) : TraceM TV := do
-  let idxs ← inputs b; let pre ← input1; let ids ← inputs b; let prfs ← inputs (b * d)
-  let r ← deletionProof Poseidon.poseidon2 d idxs pre ids (chunks prfs d b); ret [r]; pure r
-
-def traceReducedModRCheck (P n : ℕ) : TraceM Unit := do
-  let inp ← inputs n
-  reducedModRCheck P inp; ret []
-
-def traceToReducedBigEndian (P n : ℕ) : TraceM (List TV) := do
-  let v ← input1
-  let r ← toReducedBigEndian P v n; ret r; pure r
-
-def traceFromBinaryBigEndian (n : ℕ) : TraceM TV := do
-  let inp ← inputs n
-  let r ← fromBinaryBigEndian inp; ret [r]; pure r
 
 include hmem hH
 
@@ -1569,24 +1526,6 @@ theorem sim_deletionCircuit {env : Env p} {st : TState} (P depth : ℕ)
   refine SimC_bind (sim_deletionProof hmemP hH depth (hidxs.mono e07) (hpre.mono e07)
     (hids.mono e07) (hproofs.mono e07)).toC fun env8 st8 root troot e8 hroot => ?_
   exact (sim_assertEq hroot (hpost.mono (e07.trans e8))).toC
-
-omit hmemP hmemK hH hK hKlen in
-/-- `driver trace Insertion P d b` -/
-def traceInsertion (P d b : ℕ) : TraceM Unit := do
-  let ih ← input1; let start ← input1; let pre ← input1; let post ← input1
-  let ids ← inputs b; let prfs ← inputs (b * d)
-  insertionCircuit P d ih start pre post ids (chunks prfs d b); ret []
-
-omit hmemP hmemK hH hK hKlen in
-/-- `driver trace Deletion P d b` -/
-def traceDeletion (P d b : ℕ) : TraceM Unit := do
-  if !deletionDepthOk d then
-    let _ ← inputs (4 + 2 * b + b * d)
-    TraceM.emit "error max depth supported is 31"; ret []
-  else
-  let ih ← input1; let idxs ← inputs b; let pre ← input1; let post ← input1
-  let ids ← inputs b; let prfs ← inputs (b * d)
-  deletionCircuit P d ih idxs pre post ids (chunks prfs d b); ret []
 
 theorem insertionCircuit_trace_iff (P d b : ℕ) (ih start pre post : ZMod p)
     (ids prfs : List (ZMod p)) (hids : ids.length = b) (hprfs : prfs.length = b * d)
